@@ -85,10 +85,6 @@ def run(case):
     out = Out()
     fmt = case["fmt"]
     n, shared_triple, bnode_named, shared_bnode = features(case["graphs"])
-    name_in_triples = any(name is not None and name[0] == "b" and any(t[2] == name or t[0] == name for _, ts in case["graphs"] for t in ts)
-                          for name, _ in case["graphs"])
-    if K.skip("C06-trix-bnode-graph-name-in-triples", fmt == "trix" and name_in_triples, out):
-        return out
     with warnings.catch_warnings():
         warnings.simplefilter("ignore")
         ds = build(case["graphs"])
